@@ -86,24 +86,44 @@ Section Fs.
     | Some _ => Some (upd p None f)
     end.
 
+  (** Where the serialisation [json_dumps(content)] happens.  The code under
+      verification has it inside the [with] block ([DInside]).  The two other
+      placements are behaviour-preserving rewrites as far as the property is
+      concerned; the model is parametric in the placement, every theorem is
+      proved for all three, and the correspondence check feeds the placement
+      it observes in the implementation's call trace. *)
+  Inductive dumps_pos := DFirst | DBeforeOpen | DInside.
+
+  (* the serialisation step: None = succeeded, Some k = raised *)
+  Definition dumps_res (sch : schedule) (new : option content) : option exn_kind :=
+    match sch SDumps with
+    | Some ft => Some (fkind ft)
+    | None => match new with None => Some KExc | Some _ => None end
+    end.
+  Definition dumps_at (here : bool) (sch : schedule) (new : option content) : option exn_kind :=
+    if here then dumps_res sch new else None.
+
   (** [_save_content(content, path, 'json')]:
         with open(path, 'w') as the_file:
             content = json_dumps(content)
             the_file.write(content)
       [new = None]: the serialiser itself raises (an Exception) on this
       document. *)
-  Definition save_content (new : option content) (A : path) (sch : schedule) (f : fs)
-    : fs * outcome :=
+  Definition save_content (pos : dumps_pos) (new : option content) (A : path)
+             (sch : schedule) (f : fs) : fs * outcome :=
+    match dumps_at (match pos with DBeforeOpen => true | _ => false end) sch new with
+    | Some k => (f, Raised k SDumps)
+    | None =>
     match sch SOpen with
     | Some ft => (upd A (fdisk ft) f, Raised (fkind ft) SOpen)
     | None =>
         let f1 := upd A (Some []) f in                (* created / truncated *)
         let '(f2, body) :=
-          match sch SDumps with
-          | Some ft => (f1, Raised (fkind ft) SDumps)
+          match dumps_at (match pos with DInside => true | _ => false end) sch new with
+          | Some k => (f1, Raised k SDumps)
           | None =>
               match new with
-              | None => (f1, Raised KExc SDumps)
+              | None => (f1, Raised KExc SDumps)      (* unreachable: dumps succeeded *)
               | Some c =>
                   match sch SWrite with
                   | Some ft => (upd A (fdisk ft) f1, Raised (fkind ft) SWrite)
@@ -116,6 +136,7 @@ Section Fs.
         | Some ft => (upd A (fdisk ft) f2, Raised (fkind ft) SClose)
         | None => (f2, body)
         end
+    end
     end.
 
   (** [save_content_to_path(content, path, 'json', keep_backup)]:
@@ -129,15 +150,18 @@ Section Fs.
         else:
             if not keep_backup:
                 os.remove(backup_path) *)
-  Definition save (keep : bool) (new : option content) (A : path) (sch : schedule) (f : fs)
-    : fs * outcome :=
+  Definition save (pos : dumps_pos) (keep : bool) (new : option content) (A : path)
+             (sch : schedule) (f : fs) : fs * outcome :=
+    match dumps_at (match pos with DFirst => true | _ => false end) sch new with
+    | Some k => (f, Raised k SDumps)
+    | None =>
     match sch SBackup with
     | Some ft => (f, Raised (fkind ft) SBackup)
     | None =>
     match rename A (bak A) f with
     | None => (f, Raised KExc SBackup)
     | Some f1 =>
-        let '(f2, r) := save_content new A sch f1 in
+        let '(f2, r) := save_content pos new A sch f1 in
         match r with
         | Raised KExc s =>
             match sch SRestore with
@@ -160,6 +184,7 @@ Section Fs.
                      end
                  end
         end
+    end
     end
     end.
 
@@ -187,7 +212,7 @@ Section Fs.
       end.
 
     (* deep patch A P [--backup] *)
-    Definition patch_cmd (keep : bool) (A P : path) (sch : schedule) (f : fs)
+    Definition patch_cmd (pos : dumps_pos) (keep : bool) (A P : path) (sch : schedule) (f : fs)
       : fs * outcome :=
       match sch SLoadDelta with
       | Some ft => (f, Raised (fkind ft) SLoadDelta)
@@ -203,7 +228,7 @@ Section Fs.
       | Some a =>
       match sch SApply with
       | Some ft => (f, Raised (fkind ft) SApply)
-      | None => save keep (dump (apply_delta dl a)) A sch f
+      | None => save pos keep (dump (apply_delta dl a)) A sch f
       end end end end end.
   End Cli.
 
@@ -231,6 +256,8 @@ Arguments sched_of {X}.
 Arguments upd {X}.
 Arguments rename {X}.
 Arguments remove {X}.
+Arguments dumps_res {X}.
+Arguments dumps_at {X}.
 Arguments save_content {X}.
 Arguments save {X}.
 Arguments load {X doc}.
